@@ -2,18 +2,26 @@
 Contract: spec/FocusTreeOps.tla; model: spec/FocusTree.tla; trace spec: spec/FocusTreeTrace.tla."""
 from __future__ import annotations
 
+import concurrent.futures as cf
 import json
+import warnings
 
 from .. import tlc
 
 W, H = 14, 7
 ARROWS = ["up", "down", "left", "right"]
 KEYS = ARROWS + ["x", "page down", "page up", "tab", "home"]
+# the wide alphabet of the "unsel" and "longlist" families: every navigation command of the default command map, the other
+# commands (activate, next / previous selectable, redraw), characters, function and editing keys
+NAVKEYS = ARROWS + ["page down", "page up", "home", "end"]
+ALPHABET = NAVKEYS + ["tab", "shift tab", "enter", " ", "x", "A", "f5", "esc", "backspace", "delete", "ctrl n", "ctrl l", "meta x", "insert"]
 
 
 class World:
-    def __init__(self, rng):
+    def __init__(self, rng, wide=False):
         import urwid
+
+        self.wide = wide     # new families: leaves consume keys of the whole alphabet, containers are never built empty
 
         urwid.set_encoding("utf-8")
         self.u = urwid
@@ -64,7 +72,11 @@ class World:
         return w
 
     # ---- builders ---------------------------------------------------------------------------------
-    def leaf(self):
+    def leaf(self, sel=None):
+        if self.wide:
+            if sel is None:
+                sel = self.rng.random() < 0.5
+            return self.Leaf(sel, tuple(self.rng.sample(ALPHABET, self.rng.choice([0, 0, 1, 2]))) if sel else ())
         sel = self.rng.random() < 0.6
         return self.Leaf(sel, ("x",) if (sel and self.rng.random() < 0.5) else ())
 
@@ -73,7 +85,7 @@ class World:
         u = self.u
         if depth <= 0 or r < 0.4:
             return self.leaf()
-        n = self.rng.randint(0, 3)
+        n = self.rng.randint(2 if self.wide else 0, 3)
         if r < 0.65:
             return self.tag(u.Pile([self.flow(depth - 1) for _ in range(n)]))
         if r < 0.85:
@@ -86,7 +98,7 @@ class World:
         if depth <= 0 or r < 0.3:
             return u.Filler(self.flow(depth), valign="top")
         if r < 0.55:
-            return self.tag(u.ListBox(u.SimpleFocusListWalker([self.flow(depth - 1) for _ in range(self.rng.randint(0, 3))])))
+            return self.tag(u.ListBox(u.SimpleFocusListWalker([self.flow(depth - 1) for _ in range(self.rng.randint(2 if self.wide else 0, 3))])))
         if r < 0.8:
             hdr = self.flow(1 if self.rng.random() < 0.35 else 0) if self.rng.random() < 0.6 else None     # sometimes several rows
             ftr = self.flow(1 if self.rng.random() < 0.35 else 0) if self.rng.random() < 0.6 else None
@@ -186,256 +198,754 @@ class World:
 
         visit(root)
 
+    # ---- addressing -------------------------------------------------------------------------------
+    def positions(self, w):
+        """[(position, child)] of a container, the positions being what focus_position / set_focus_path take."""
+        u = self.u
+        if isinstance(w, (u.Pile, u.Columns, u.GridFlow)):
+            return [(i, c) for i, (c, _) in enumerate(w.contents)]
+        if isinstance(w, u.ListBox):
+            return list(enumerate(w.body))
+        if isinstance(w, u.Frame):
+            return [(nm, getattr(w, nm)) for nm in ("header", "body", "footer") if getattr(w, nm) is not None]
+        if isinstance(w, u.Overlay):
+            return [(1, w.top_w)]      # the bottom widget cannot take the focus
+        return []
 
-def run_history(seed, nops, depth=2):
-    import random
+    def path_to(self, root, target):
+        """positions leading from the root container to `target` (a container), or None when it cannot take the focus."""
+        def visit(w, acc):
+            w = self.base(w)
+            if w is target:
+                return acc
+            for pos, k in self.positions(w):
+                r = visit(k, [*acc, pos])
+                if r is not None:
+                    return r
+            return None
 
-    rng = random.Random(seed)
-    wd = World(rng)
-    u = wd.u
-    root = wd.box(depth)
-    # most histories at the usual size, some on a screen too short for everything (trimmed header / footer / items)
-    W, H = 14, rng.choice([7, 7, 7, 7, 4, 3, 2])
-    ev = []
+        return visit(root, [])
 
-    def render():
+
+EVENT_DEFAULTS = {"recv": [], "ate": 0, "ret": "same", "key": "", "samestruct": 0, "target": 0, "want": -1, "rfocus": [], "way": "",
+                  "p_saved": [], "p_back": [], "p_later": [], "pre": [], "pendpre": [], "firstpre": [], "pend": [], "pendfirst": []}
+
+
+class History:
+    """One history on one tree.  Every operation appends ONE event: the operation, what it returned / raised, the focus indices
+    read right after it (`foc`), then - unless layout=False - a rendering, then the node table (`post`)."""
+
+    def __init__(self, seed, fam, depth):
+        import random
+
+        self.seed, self.fam = seed, fam
+        self.rng = rng = random.Random(seed)
+        self.wd = wd = World(rng, wide=fam != "mix")
+        self.u = wd.u
+        self.ev = []
+        self.W = 14
+        self.lb = None
+        if fam == "mix":
+            self.root = wd.box(depth)
+            # most histories at the usual size, some on a screen too short for everything (trimmed header / footer / items)
+            self.H = rng.choice([7, 7, 7, 7, 4, 3, 2])
+        elif fam == "unsel":
+            for _ in range(6):      # a tree with a container that has an unselectable child the focus can be put on
+                self.root = wd.box(depth)
+                if self.unsel_candidates():
+                    break
+            self.H = rng.choice([7, 7, 7, 5])
+        else:
+            self.root = self.build_longlist()
+            self.H = rng.choice([7, 7, 6, 5, 4, 3])
+
+    # ---- trees of the "longlist" family ------------------------------------------------------------------------------
+    def build_longlist(self):
+        wd, u, rng = self.wd, self.u, self.rng
+        n = rng.randint(6, 24)
+        items = []
+        for _ in range(n):
+            q = rng.random()
+            if q < 0.8:
+                items.append(wd.leaf(sel=rng.random() < 0.7))
+            elif q < 0.92:
+                items.append(wd.tag(u.Pile([wd.leaf() for _ in range(2)])))
+            else:
+                items.append(wd.tag(u.Columns([wd.leaf() for _ in range(2)], dividechars=1)))
+        walker = rng.choice([u.SimpleFocusListWalker, u.SimpleListWalker])(items)
+        self.walker_kind = type(walker).__name__
+        self.lb = lb = wd.tag(u.ListBox(walker))
+        wrap = rng.choice(["bare", "frame", "frame", "frame2", "pile", "columns", "overlay"])
+        if wrap == "bare":
+            return lb
+        if wrap in ("frame", "frame2"):
+            f = wd.tag(u.Frame(lb, header=wd.leaf() if rng.random() < 0.6 else None, footer=wd.leaf() if rng.random() < 0.6 else None, focus_part="body"))
+            if wrap == "frame2":
+                f = wd.tag(u.Frame(f, header=wd.leaf() if rng.random() < 0.5 else None, footer=None, focus_part="body"))
+            return f
+        if wrap == "pile":
+            kids = [("pack", wd.leaf()), ("weight", 1, lb)]
+            if rng.random() < 0.5:
+                kids.reverse()
+            return wd.tag(u.Pile(kids, focus_item=lb))
+        if wrap == "columns":
+            return wd.tag(u.Columns([("weight", 3, lb), ("weight", 1, u.Filler(wd.leaf(), valign="top"))], dividechars=1))
+        return wd.tag(u.Overlay(lb, u.Filler(wd.leaf(), valign="top"), "center", 10, "middle", 4))
+
+    # ---- recording ----------------------------------------------------------------------------------------------------
+    def render(self):
         # empty the canvas cache only: the widgets' own layout caches (GridFlow's display widget, Columns' widths, ...)
         # stay as the history left them, so staleness there is observable
-        u.CanvasCache.clear()
+        wd = self.wd
+        self.u.CanvasCache.clear()
         del wd.rfocus[:]
-        root.render((W, H), True)
+        self.root.render((self.W, self.H), True)
         return list(wd.rfocus)
 
-    def event(t, pre, exc, expect, **kw):
-        e = {"t": t, "pre": pre, "exc": exc, "expect": expect, "recv": [], "handled": 0, "ret_same": 1, "key": "", "samestruct": 0, "target": 0,
-             "same": 1, "rfocus": [], "post": [], "short": 1 if H < 7 else 0}
+    def path(self):
+        b = self.wd.base(self.root)
+        return ["/"] + ([str(p) for p in b.get_focus_path()] if self.wd.children(b) is not None else [])    # "/": a path is never the empty sequence
+
+    def pending(self):
+        """ids of the ListBoxes with a focus assignment awaiting the next layout, and of those never laid out yet"""
+        pend, first = [], []
+        for c in self.wd.containers(self.root):
+            if isinstance(c, self.u.ListBox):
+                if c.set_focus_pending == "first selectable":
+                    first.append(c._vf_id)
+                elif c.set_focus_pending:
+                    pend.append(c._vf_id)
+        return pend, first
+
+    def last_post(self):
+        return self.ev[-1]["post"]
+
+    def event(self, t, exc, expect, layout=True, **kw):
+        wd, root = self.wd, self.root
+        e = {"t": t, "exc": exc, "expect": expect, "short": 1 if self.H < 7 else 0, "laid": 0, "foc": [], "post": []}
+        for k, v in EVENT_DEFAULTS.items():
+            e[k] = list(v) if isinstance(v, list) else v
         e.update(kw)
         e["soft"] = ""
-        if t in ("key", "press", "init", "edit", "setcontents") and exc:
+        if t in ("key", "press", "init", "edit", "setcontents", "render") and exc:
             # the property says nothing about these calls raising (rendering is C01): recorded as DIVERGENCE
             e["soft"], e["exc"] = exc, ""
         selnow = {}
-        try:      # selectable() as the operation left it, before any rendering refreshes layout caches
+        try:      # selectable() and the focus indices as the operation left them, before any rendering refreshes layout caches
             for c in wd.containers(root):
                 selnow[c._vf_id] = 1 if c.selectable() else 0
+            e["foc"] = [{"id": nd["id"], "nch": nd["nch"], "focus": nd["focus"]} for nd in wd.table(root) if not nd["leaf"]]
+            e["pend"], e["pendfirst"] = self.pending()
         except Exception:  # noqa: BLE001
             selnow = {}
-        if not e["exc"] or expect:
+            e["foc"] = []
+        if layout and (not e["exc"] or expect):
             try:
-                e["rfocus"] = render()
+                e["rfocus"] = self.render()
+                e["laid"] = 1
             except Exception as ex:  # noqa: BLE001
                 e["soft"] = e["soft"] or ("render:" + type(ex).__name__)
                 e["rfocus"] = []
+                e["laid"] = 0
         try:
             e["post"] = wd.table(root)
             for nd in e["post"]:
                 if nd["id"] in selnow:
                     nd["sel"] = selnow[nd["id"]]
+            if e["p_saved"]:
+                e["p_later"] = self.path()[:len(e["p_saved"])] if t == "setpath" else self.path()
         except Exception as ex:  # noqa: BLE001
-            e["post"] = pre
+            e["post"] = self.ev[-1]["post"] if self.ev else []
             if not e["exc"]:
                 e["exc"] = "project:" + type(ex).__name__
-        ev.append(e)
+        self.ev.append(e)
         return e
 
-    try:
-        pre = wd.table(root)
-        event("init", pre, "", "")
-    except Exception as ex:  # noqa: BLE001
-        return {"seed": seed, "ev": [{"t": "init", "pre": [], "post": [], "exc": "build:" + type(ex).__name__, "expect": "", "recv": [], "handled": 0,
-                                      "ret_same": 1, "key": "", "samestruct": 0, "target": 0, "same": 1, "rfocus": [], "soft": "", "short": 0}]}
-    for _ in range(nops):
-        pre = ev[-1]["post"]
-        r = rng.random()
-        conts = wd.containers(root)
+    def stop(self):
+        e = self.ev[-1]
+        return bool((e["exc"] and not e["expect"]) or e["soft"])
+
+    def init(self):
+        try:
+            self.wd.table(self.root)
+            self.event("init", "", "")
+            return True
+        except Exception as ex:  # noqa: BLE001
+            e = {"t": "init", "exc": "build:" + type(ex).__name__, "expect": "", "short": 0, "laid": 0, "foc": [], "post": [], "soft": ""}
+            e.update({k: (list(v) if isinstance(v, list) else v) for k, v in EVENT_DEFAULTS.items()})
+            self.ev.append(e)
+            return False
+
+    # ---- operations ---------------------------------------------------------------------------------------------------
+    def op_key(self, key, layout=True):
+        wd = self.wd
+        if not wd.base(self.root).selectable():
+            return False
+        pre = self.last_post()
+        pendpre, first = self.pending()
+        del wd.recv[:]
+        wd.handled[0] = 0
+        ret, exc = "?", ""
+        try:
+            ret = self.root.keypress((self.W, self.H), key)
+        except Exception as ex:  # noqa: BLE001
+            exc = type(ex).__name__
+        self.event("key", exc, "", layout=layout, pre=pre, pendpre=pendpre, firstpre=first, key=key, recv=list(wd.recv), ate=wd.handled[0],
+                   ret="same" if (exc or ret == key) else ("none" if ret is None else "other"), samestruct=1)
+        return True
+
+    def op_press(self):
         exc = ""
-        if r < 0.4:
-            key = rng.choice(KEYS)
-            if not wd.base(root).selectable():
-                continue
-            del wd.recv[:]
-            wd.handled[0] = 0
-            ret = "?"
+        try:
+            self.root.mouse_event((self.W, self.H), "mouse press", 1, self.rng.randrange(self.W), self.rng.randrange(self.H), True)
+        except Exception as ex:  # noqa: BLE001
+            exc = type(ex).__name__
+        self.event("press", exc, "")
+
+    def want_index(self, c, pos):
+        """index among the children (as the node table lists them) of the child a VALID position names, else -1"""
+        for i, (p, _k) in enumerate(self.wd.positions(c) if not isinstance(c, self.u.Overlay) else [(0, None), (1, None)]):
+            if p == pos and type(p) is type(pos):
+                return i
+        return -1
+
+    def op_setfocus(self, c, pos, way="position", layout=True, widget=None, coming_from=None):
+        u = self.u
+        want = self.want_index(c, pos)
+        if isinstance(c, u.Overlay) and pos != 1:
+            want = -1
+        expect = "" if want >= 0 else "IndexError"
+        exc = ""
+        try:
+            with warnings.catch_warnings():
+                warnings.simplefilter("ignore")
+                if way == "position":
+                    c.focus_position = pos
+                elif way == "set_focus":           # the older spelling, by position
+                    if isinstance(c, u.ListBox):
+                        c.set_focus(pos, coming_from)
+                    else:
+                        c.set_focus(pos)
+                elif way == "set_focus_widget":    # ... and by child widget (Pile, Columns, GridFlow)
+                    c.set_focus(widget)
+                elif way == "walker":              # the list walker's own focus
+                    c.body.set_focus(pos)
+                else:
+                    raise AssertionError(way)
+        except Exception as ex:  # noqa: BLE001
+            exc = type(ex).__name__
+        self.event("setfocus", exc, expect, layout=layout, target=c._vf_id, want=want, way=way)
+
+    def op_setpath(self, positions, layout=True, way="path"):
+        """set_focus_path() from the root with a path that addresses existing children"""
+        exc = ""
+        saved = ["/"] + [str(p) for p in positions]
+        back = ["?"]
+        try:
+            self.wd.base(self.root).set_focus_path(positions)
+            back = self.path()[:len(saved)]
+        except Exception as ex:  # noqa: BLE001
+            exc = type(ex).__name__
+        self.event("setpath", exc, "", layout=layout, p_saved=saved, p_back=back, way=way)
+
+    def op_render(self):
+        self.event("render", "", "")
+
+    def op_roundtrip(self, between):
+        """read the focus path, let `between()` move the focus elsewhere, write the path back, read it again (and once more
+        after the layout that follows)"""
+        wd = self.wd
+        exc = ""
+        saved = None
+        try:
+            saved = wd.base(self.root).get_focus_path() if wd.children(wd.base(self.root)) is not None else None
+        except Exception as ex:  # noqa: BLE001
+            exc = type(ex).__name__
+        if saved is None and not exc:
+            return False
+        back = ["?"]
+        if not exc:
             try:
-                ret = root.keypress((W, H), key)
+                between()
+            except Exception:  # noqa: BLE001  (a key raising is not C08's business; skip the round trip)
+                return False
+            try:
+                wd.base(self.root).set_focus_path(saved)
+                back = self.path()
             except Exception as ex:  # noqa: BLE001
                 exc = type(ex).__name__
-            event("key", pre, exc, "", key=key, recv=list(wd.recv), handled=wd.handled[0], ret_same=1 if (exc or ret == key or ret is None) else 0,
-                  samestruct=1)
-            if ret is None and not wd.handled[0]:
-                ev[-1]["handled"] = 1  # consumed by a container (focus move): not 'unhandled'
-        elif r < 0.5:
-            try:
-                root.mouse_event((W, H), "mouse press", 1, rng.randrange(W), rng.randrange(H), True)
-            except Exception as ex:  # noqa: BLE001
-                exc = type(ex).__name__
-            event("press", pre, exc, "")
-        elif r < 0.65 and conts:
-            c = rng.choice(conts)
-            kids = wd.children(c)
-            expect = ""
-            if isinstance(c, u.Frame):
-                pos = rng.choice(["header", "body", "footer", "nope"])
-                if pos == "nope" or getattr(c, pos) is None:
-                    expect = "IndexError"
-            elif isinstance(c, u.Overlay):
-                pos = rng.choice([1, 1, 0, 2])
-                if pos != 1:
-                    expect = "IndexError"
+        self.event("roundtrip", exc, "", p_saved=["/"] + [str(p) for p in (saved or [])], p_back=back)
+        return True
+
+    def op_edit_mix(self, c):
+        wd, u, rng = self.wd, self.u, self.rng
+        kids = wd.children(c)
+        t = "edit"
+        exc = ""
+        try:
+            if isinstance(c, (u.Pile, u.Columns, u.GridFlow)):
+                opt = c.options()
+                q = rng.random()
+                if q < 0.35:
+                    c.contents.insert(rng.randint(0, len(kids)), (wd.leaf(), opt))
+                elif q < 0.5 and kids:
+                    del c.contents[rng.randrange(len(kids))]
+                elif q < 0.6:   # slice deletion incl. extended and negative steps (valid for any list)
+                    a = rng.choice([None, 0, 1, 2, -1, -2])
+                    b = rng.choice([None, None, 0, 1, 3, -1])
+                    k = rng.choice([None, 1, 2, 2, 3, -1, -2])
+                    del c.contents[a:b:k]
+                elif q < 0.9:
+                    c.contents[:] = [(wd.leaf(), opt) for _ in range(rng.randint(0, 3))]
+                    t = "setcontents"
+                else:
+                    c.contents.clear()
+                    t = "setcontents"
+            elif isinstance(c, u.ListBox):
+                if rng.random() < 0.5 or not kids:
+                    c.body.insert(rng.randint(0, len(kids)), wd.leaf())
+                else:
+                    del c.body[rng.randrange(len(kids))]
+            elif isinstance(c, u.Frame):
+                part = rng.choice(["header", "footer"])
+                q = rng.random()
+                if q < 0.5:
+                    setattr(c, part, wd.leaf() if rng.random() < 0.6 else None)
+                elif q < 0.75 and getattr(c, part) is not None:
+                    del c.contents[part]
+                else:
+                    c.contents[part] = (wd.leaf(), None)
             else:
-                pos = rng.randint(-1, len(kids) + 1)
-                if not 0 <= pos < len(kids):
-                    expect = "IndexError"
-            try:
-                c.focus_position = pos
-            except Exception as ex:  # noqa: BLE001
-                exc = type(ex).__name__
-            event("setfocus", pre, exc, expect, target=c._vf_id)
-        elif r < 0.75:
-            saved = None
-            try:
-                saved = wd.base(root).get_focus_path() if wd.children(wd.base(root)) is not None else None
-            except Exception as ex:  # noqa: BLE001
-                exc = type(ex).__name__
-            if saved is None and not exc:
-                continue
-            same = 1
-            if not exc:
-                keys_ok = True
-                try:
+                return False
+        except Exception as ex:  # noqa: BLE001
+            exc = type(ex).__name__
+        self.event(t, exc, "", target=c._vf_id)
+        return True
+
+    # ---- family "mix": the original random histories ---------------------------------------------------------------------
+    def run_mix(self, nops):
+        wd, u, rng, root = self.wd, self.u, self.rng, self.root
+        for _ in range(nops):
+            r = rng.random()
+            conts = wd.containers(root)
+            if r < 0.4:
+                key = rng.choice(KEYS)
+                if not self.op_key(key):
+                    continue
+            elif r < 0.5:
+                self.op_press()
+            elif r < 0.65 and conts:
+                c = rng.choice(conts)
+                kids = wd.children(c)
+                if isinstance(c, u.Frame):
+                    pos = rng.choice(["header", "body", "footer", "nope"])
+                elif isinstance(c, u.Overlay):
+                    pos = rng.choice([1, 1, 0, 2])
+                else:
+                    pos = rng.randint(-1, len(kids) + 1)
+                self.op_setfocus(c, pos)
+            elif r < 0.75:
+                def between():
                     if wd.base(root).selectable():
                         for _k in range(rng.randint(1, 3)):
-                            root.keypress((W, H), rng.choice(ARROWS))
-                except Exception:  # noqa: BLE001  (a key raising is not C08's business; skip the round trip)
-                    keys_ok = False
-                if not keys_ok:
+                            root.keypress((self.W, self.H), rng.choice(ARROWS))
+                if not self.op_roundtrip(between):
                     continue
-                try:
-                    wd.base(root).set_focus_path(saved)
-                    same = 1 if wd.base(root).get_focus_path() == saved else 0
-                except Exception as ex:  # noqa: BLE001
-                    exc = type(ex).__name__
-            event("roundtrip", pre, exc, "", same=same)
-        elif conts:
-            c = rng.choice(conts)
-            kids = wd.children(c)
-            t = "edit"
+            elif conts:
+                if not self.op_edit_mix(rng.choice(conts)):
+                    continue
+            else:
+                continue
+            if self.stop():
+                break
+
+    # ---- family "unsel": the focus put on an unselectable child in every public way, then every key ------------------------
+    def unsel_candidates(self):
+        """(container, [indices of unselectable direct children]) for the containers the focus can be led to"""
+        wd, u = self.wd, self.u
+        out = []
+        for c in wd.containers(self.root):
+            if isinstance(c, u.Overlay) or wd.path_to(self.root, c) is None:
+                continue
+            idx = [i for i, (_p, k) in enumerate(wd.positions(c)) if not wd.base(k).selectable()]
+            if idx:
+                out.append((c, idx))
+        return out
+
+    def on_target(self, c, child):
+        """the root's focus path runs through container c and c's focus is `child`"""
+        wd = self.wd
+        w = wd.base(self.root)
+        while wd.children(w) is not None:
             try:
-                if isinstance(c, (u.Pile, u.Columns, u.GridFlow)):
-                    opt = c.options() if not isinstance(c, u.GridFlow) else c.options()
-                    q = rng.random()
-                    if q < 0.35:
-                        c.contents.insert(rng.randint(0, len(kids)), (wd.leaf(), opt))
-                    elif q < 0.5 and kids:
-                        del c.contents[rng.randrange(len(kids))]
-                    elif q < 0.6:   # slice deletion incl. extended and negative steps (valid for any list)
-                        a = rng.choice([None, 0, 1, 2, -1, -2])
-                        b = rng.choice([None, None, 0, 1, 3, -1])
-                        k = rng.choice([None, 1, 2, 2, 3, -1, -2])
-                        del c.contents[a:b:k]
-                    elif q < 0.9:
-                        c.contents[:] = [(wd.leaf(), opt) for _ in range(rng.randint(0, 3))]
-                        t = "setcontents"
-                    else:
-                        c.contents.clear()
-                        t = "setcontents"
+                f = w.focus
+            except Exception:  # noqa: BLE001
+                return False
+            if w is c:
+                return f is not None and wd.base(f) is child
+            if f is None:
+                return False
+            w = wd.base(f)
+        return False
+
+    def place(self, c, i, way, layout):
+        """put the focus of container c on its i-th child (an unselectable one) by `way`; returns the child now in focus"""
+        wd, u, rng = self.wd, self.u, self.rng
+        poss = wd.positions(c)
+        pos, child = poss[i]
+        child = wd.base(child)
+        lead = wd.path_to(self.root, c)
+        islist = isinstance(c, (u.Pile, u.Columns, u.GridFlow))
+        if way == "path" or lead is None:
+            self.op_setpath([*(lead or []), pos], layout=layout)
+            return child
+        if lead and not self.on_target_container(c):
+            self.op_setpath(lead, layout=rng.random() < 0.5, way="lead")
+            if self.stop():
+                return child
+        if way == "set_focus_widget" and islist:
+            self.op_setfocus(c, pos, way=way, layout=layout, widget=poss[i][1])
+        elif way == "set_focus" and not isinstance(c, u.Overlay):
+            self.op_setfocus(c, pos, way=way, layout=layout, coming_from=rng.choice([None, "above", "below"]))
+        elif way == "walker" and isinstance(c, u.ListBox):
+            self.op_setfocus(c, pos, way=way, layout=layout)
+        elif way == "replace" and (islist or isinstance(c, u.ListBox) or (isinstance(c, u.Frame) and pos != "body")):
+            # the focus sits on a child which is then replaced in place by an unselectable one (a Frame's body stays: it is a box widget)
+            j = i if isinstance(c, u.Frame) else rng.randrange(len(poss))
+            jpos = poss[j][0]
+            self.op_setfocus(c, jpos, layout=rng.random() < 0.5)
+            if self.stop():
+                return child
+            child = wd.leaf(sel=False)
+            exc = ""
+            try:
+                if islist:
+                    c.contents[j] = (child, c.contents[j][1])
                 elif isinstance(c, u.ListBox):
-                    if rng.random() < 0.5 or not kids:
-                        c.body.insert(rng.randint(0, len(kids)), wd.leaf())
-                    else:
-                        del c.body[rng.randrange(len(kids))]
-                elif isinstance(c, u.Frame):
-                    part = rng.choice(["header", "footer"])
-                    q = rng.random()
-                    if q < 0.5:
-                        setattr(c, part, wd.leaf() if rng.random() < 0.6 else None)
-                    elif q < 0.75 and getattr(c, part) is not None:
-                        del c.contents[part]
-                    else:
-                        c.contents[part] = (wd.leaf(), None)
+                    c.body[j] = child
                 else:
-                    continue
+                    c.contents[jpos] = (child, None)
             except Exception as ex:  # noqa: BLE001
                 exc = type(ex).__name__
-            event(t, pre, exc, "", target=c._vf_id)
-        if (ev[-1]["exc"] and not ev[-1]["expect"]) or ev[-1]["soft"]:
-            break
-    return {"seed": seed, "ev": ev}
+            self.event("edit", exc, "", layout=layout, target=c._vf_id, way="replace")
+        elif way == "delete" and (islist or isinstance(c, u.ListBox)) and i > 0:
+            # the focus sits on the child before, which is then deleted: the focus index stays and names the unselectable child
+            self.op_setfocus(c, poss[i - 1][0], layout=rng.random() < 0.5)
+            if self.stop():
+                return child
+            exc = ""
+            try:
+                if islist:
+                    del c.contents[i - 1]
+                else:
+                    del c.body[i - 1]
+            except Exception as ex:  # noqa: BLE001
+                exc = type(ex).__name__
+            self.event("edit", exc, "", layout=layout, target=c._vf_id, way="delete")
+        else:
+            self.op_setfocus(c, pos, way="position", layout=layout)
+        return child
+
+    def on_target_container(self, c):
+        wd = self.wd
+        w = wd.base(self.root)
+        while wd.children(w) is not None:
+            if w is c:
+                return True
+            try:
+                f = w.focus
+            except Exception:  # noqa: BLE001
+                return False
+            if f is None:
+                return False
+            w = wd.base(f)
+        return False
+
+    WAYS = ["position", "path", "set_focus", "set_focus_widget", "walker", "replace", "delete"]
+
+    def run_unsel(self, rounds):
+        wd, rng = self.wd, self.rng
+        for _ in range(rounds):
+            cands = self.unsel_candidates()
+            if not cands:
+                return
+            both = [(c, idx) for c, idx in cands if c.selectable()]
+            c, idx = rng.choice(both if (both and rng.random() < 0.8) else cands)
+            i = rng.choice(idx)
+            child = self.place(c, i, rng.choice(self.WAYS), layout=rng.random() < 0.6)
+            if self.stop():
+                return
+            keys = list(ALPHABET)
+            rng.shuffle(keys)
+            for key in keys:
+                if not self.on_target(c, child):
+                    # the key before moved the focus away (or an edit went elsewhere): put it back, by another way
+                    poss = wd.positions(c)
+                    i = next((j for j, (_p, k) in enumerate(poss) if wd.base(k) is child), None)
+                    if i is None:
+                        break
+                    child = self.place(c, i, rng.choice(self.WAYS), layout=rng.random() < 0.6)
+                    if self.stop():
+                        return
+                if not self.op_key(key, layout=rng.random() < 0.8):
+                    break
+                if self.stop():
+                    return
+
+    # ---- family "longlist": far jumps in a ListBox longer than its viewport, then layout, path re-read and keys ------------
+    def lb_jump(self, pos, layout):
+        wd, rng, lb = self.wd, self.rng, self.lb
+        way = rng.choice(["position", "position", "path", "path", "set_focus", "walker"])
+        if way == "path" and 0 <= pos < len(lb.body):
+            self.op_setpath([*wd.path_to(self.root, lb), pos], layout=layout)
+        else:
+            self.op_setfocus(lb, pos, way="position" if way == "path" else way, layout=layout, coming_from=rng.choice([None, "above", "below"]))
+
+    def run_longlist(self, nops):
+        wd, rng, lb, root = self.wd, self.rng, self.lb, self.root
+        for _ in range(nops):
+            r = rng.random()
+            n = len(lb.body)
+            if r < 0.3 and n:
+                pos = rng.randrange(n) if rng.random() < 0.9 else rng.choice([-1, n, n + 1])
+                self.lb_jump(pos, layout=rng.random() < 0.6)
+            elif r < 0.55:
+                if not self.op_key(rng.choice(ALPHABET if rng.random() < 0.6 else NAVKEYS), layout=rng.random() < 0.8):
+                    continue
+            elif r < 0.63:
+                self.op_render()
+            elif r < 0.7:
+                self.op_press()
+            elif r < 0.88 and n:
+                def between():
+                    # go somewhere else (mostly far away) and use the list there
+                    lb.focus_position = rng.randrange(len(lb.body))
+                    if rng.random() < 0.7:
+                        self.u.CanvasCache.clear()
+                        root.render((self.W, self.H), True)
+                    if rng.random() < 0.5 and wd.base(root).selectable():
+                        root.keypress((self.W, self.H), rng.choice(NAVKEYS))
+                if not self.op_roundtrip(between):
+                    continue
+            else:
+                exc = ""
+                try:
+                    if rng.random() < 0.5 or n < 4:
+                        lb.body.insert(rng.randint(0, n), wd.leaf())
+                    else:
+                        del lb.body[rng.randrange(n)]
+                except Exception as ex:  # noqa: BLE001
+                    exc = type(ex).__name__
+                self.event("edit", exc, "", target=lb._vf_id)
+            if self.stop():
+                break
 
 
-MC_CFG = """CONSTANTS Depth = {d}
-Shapes <- ShapesDef
+FAMILIES = {"mix": 12, "unsel": 2, "longlist": 14}     # family -> default length (operations / placement rounds)
+
+
+def run_history(seed, nops=None, depth=None, fam="mix"):
+    if depth is None:
+        depth = 2 if seed % 3 else 3
+    if nops is None:
+        nops = FAMILIES[fam]
+    h = History(seed, fam, depth)
+    out = {"seed": seed, "fam": fam, "ev": h.ev}
+    if fam == "longlist":
+        out["walker"] = getattr(h, "walker_kind", "")
+    if not h.init():
+        return out
+    {"mix": h.run_mix, "unsel": h.run_unsel, "longlist": h.run_longlist}[fam](nops)
+    return out
+
+
+MC_CFG = """CONSTANTS MaxKids = {mk}
+ListLen = {ll}
+View = 2
+Wide = {wide}
+Variant = "{variant}"
 SPECIFICATION Spec
 INVARIANT FocusInv
 INVARIANT ColsFocusInv
+INVARIANT KeyOfferedOnPath
+INVARIANT UnhandledKeyComesBack
 INVARIANT ArrowLandsOnSelectable
+INVARIANT AssignmentKept
+INVARIANT LayoutKeeps
 CHECK_DEADLOCK FALSE
 """
+# wrong designs the model must refute: variant -> the invariants one of which TLC has to report
+WRONG = {"guardOnFocusChild": {"UnhandledKeyComesBack"}, "staleWalker": {"LayoutKeeps", "KeyOfferedOnPath", "UnhandledKeyComesBack"}}
 
 
 def _handle(chk, traces, res):
     for ti, l, why in res.rejects:
         tr = traces[ti]
         e = tr["ev"][l - 1]
-        kinds = sorted({n["kind"] for n in e["pre"]})
+        kinds = sorted({n["kind"] for n in e["post"]})
         target_kind = next((n["kind"] for n in e["post"] if n["id"] == e.get("target")), "")
-        sig = {"event": e["t"], "exc": e["exc"], "expect": e["expect"], "key": e.get("key", ""), "target_kind": target_kind}
-        chk.reject(f"C08.{why}", sig, {"seed": tr["seed"], "nops": len(tr["ev"]) - 1, "event_index": l, "kinds": kinds,
-                                       "observed": {k: e[k] for k in ("t", "exc", "expect", "key", "recv", "handled", "ret_same", "rfocus", "target", "same")},
+        sig = {"event": e["t"], "exc": e["exc"], "expect": e["expect"], "key": e.get("key", ""), "target_kind": target_kind, "fam": tr.get("fam", "mix"),
+               "way": e.get("way", "")}
+        chk.reject(f"C08.{why}", sig, {"seed": tr["seed"], "fam": tr.get("fam", "mix"), "nops": len(tr["ev"]) - 1, "event_index": l, "kinds": kinds,
+                                       "observed": {k: e[k] for k in ("t", "exc", "expect", "key", "recv", "ate", "ret", "rfocus", "target", "want", "way", "laid",
+                                                                      "foc", "p_saved", "p_back", "p_later")},
                                        "pre": e["pre"], "post": e["post"]})
+
+
+def _far(e, prev_post):
+    """a ListBox assignment whose target is further from the old focus than the screen is high (coverage only)"""
+    t = next((n for n in prev_post if n["id"] == e["target"]), None)
+    return bool(t and t["kind"] == "ListBox" and e["want"] >= 0 and abs(e["want"] - t["focus"]) >= 7)
+
+
+def _count(chk, traces, kinds, nontriv):
+    """coverage / vacuity counters of one chunk of traces (no verdicts)"""
+    def inc(k):
+        kinds[k] = kinds.get(k, 0) + 1
+
+    for t in traces:
+        fam = t.get("fam", "mix")
+        inc("family." + fam)
+        if t.get("walker"):
+            inc("walker." + t["walker"])
+        prev = None
+        for e in t["ev"]:
+            inc(e["t"])
+            if e.get("soft"):
+                chk.divergence(f"{e['t']}_raised_{e['soft']}", {"seed": t["seed"], "fam": fam, "tree": [(n["kind"], n["nch"]) for n in e["post"]][:12]})
+            if e["expect"]:
+                inc("invalid_focus_assignment")
+            if e["way"]:
+                inc("way." + e["way"])
+            if not e["laid"]:
+                inc("no_layout_after." + e["t"])
+            if e["pend"] and e["laid"] and any(f["focus"] != n["focus"] for f in e["foc"] for n in e["post"] if n["id"] == f["id"] and n["nch"] == f["nch"]):
+                inc("listbox_layout_placed_cursor_in_new_item")
+            for nd in e["post"]:
+                if not nd["leaf"]:
+                    inc("container." + nd["kind"])
+                    if nd["nch"] == 0:
+                        inc("empty_container")
+            if e["t"] == "key":
+                if e["key"] in ARROWS and any(a["focus"] != b["focus"] for a in e["pre"] for b in e["post"] if a["id"] == b["id"]):
+                    inc("arrow_moved_focus")
+                    nontriv.add(hash(json.dumps([e["pre"], e["key"]])))
+                # a selectable container whose focus child is unselectable, on the focus path, when the key arrives
+                kid = {(n["parent"], n["idx"]): n for n in e["pre"]}
+                nd = next((n for n in e["pre"] if n["parent"] == 0), None)
+                while nd and not nd["leaf"] and nd["focus"] >= 0:
+                    ch = kid.get((nd["id"], nd["focus"]))
+                    if ch is None:
+                        break
+                    if nd["sel"] and not ch["sel"]:
+                        inc(f"key_on_unselectable_focus.{nd['kind']}")
+                        inc("unsel_key." + e["key"])
+                        if any(s["parent"] == nd["id"] and s["idx"] > ch["idx"] and s["sel"] for s in e["pre"]):
+                            inc("key_on_unselectable_focus_selectable_below")
+                        nontriv.add(hash(json.dumps([e["pre"], e["key"]])))
+                    nd = ch
+                if prev is not None and prev["t"] in ("setfocus", "setpath") and not prev["laid"] and not prev["exc"]:
+                    inc("key_right_after_assignment")
+                if e["pendpre"]:
+                    inc("key_with_listbox_focus_change_pending")
+            if e["t"] == "setfocus" and prev is not None and _far(e, prev["post"]):
+                inc("far_jump" + ("_then_layout" if e["laid"] else "_without_layout"))
+            if e["t"] == "roundtrip" and fam == "longlist":
+                inc("roundtrip_longlist")
+            prev = e
 
 
 def run(chk):
     quick = chk.tier == "quick"
-    r = tlc.mc("FocusTree", MC_CFG.format(d=4 if quick else 6), timeout=2400, workers=8)
+    pool = cf.ThreadPoolExecutor(3)
+    mk, ll, wide = (3, 4, 0) if quick else (4, 6, 1)
+    futs = {"doc": pool.submit(tlc.mc, "FocusTree", MC_CFG.format(mk=mk, ll=ll, wide=wide, variant="doc"), timeout=2400, workers=3 if quick else 5)}
+    for v in WRONG:
+        futs[v] = pool.submit(tlc.mc, "FocusTree", MC_CFG.format(mk=3, ll=4, wide=0, variant=v), timeout=1200, workers=1)
+    sizes = {"mix": 1500, "unsel": 150, "longlist": 400} if quick else {"mix": 24000, "unsel": 2000, "longlist": 8000}
+    base = chk.seed * 1000003
+    kinds, nontriv = {}, set()
+    total = tlc.TVResult()
+    tvpool = cf.ThreadPoolExecutor(4)      # trace validation runs while the next chunk of histories is executed
+    inflight = []
+
+    def gather(limit):
+        while len(inflight) > limit:
+            fut, trs = inflight.pop(0)
+            res = fut.result()
+            _handle(chk, trs, res)
+            for f in ("traces", "events", "consumed", "states", "generated", "batches"):
+                setattr(total, f, getattr(total, f) + getattr(res, f))
+            total.rejects += res.rejects
+            total.wall_s = max(total.wall_s, res.wall_s)
+
+    samples = []
+    for fam, n in sizes.items():
+        off = {"mix": 0, "unsel": 400000, "longlist": 700000}[fam]
+        step = {"mix": 300, "unsel": 50, "longlist": 200}[fam]
+        for lo in range(0, n, step):
+            traces = [run_history(base + off + i, fam=fam) for i in range(lo, min(n, lo + step))]
+            if lo == 0:
+                tr = traces[0]
+                samples.append({"seed": tr["seed"], "fam": fam, "first_tree": [(n_["kind"], n_["nch"], n_["sel"]) for n_ in tr["ev"][0]["post"]][:14],
+                                "ops": [e["t"] + (":" + e["key"] if e["key"] else "") for e in tr["ev"]][:16]})
+            _count(chk, traces, kinds, nontriv)
+            inflight.append((tvpool.submit(tlc.validate, "FocusTreeTrace", traces, batch_events=6000, jobs=1, timeout=2400), traces))
+            gather(8)
+    gather(0)
+    tvpool.shutdown()
+    chk.add_tv("TV_FocusTreeTrace", total)
+    r = futs["doc"].result()
     chk.add_mc("MC_FocusTree", r)
     if not r.ok:
         chk.reject("C08.model." + str(r.violated), {"model": "FocusTree"}, {"tlc_trace": r.trace[-5:]})
-    n = 1500 if quick else 60000
-    traces = []
-    base = chk.seed * 1000003
-    for i in range(n):
-        traces.append(run_history(base + i, 12, depth=2 if (base + i) % 3 else 3))
-    res = tlc.validate("FocusTreeTrace", traces, batch_events=4000, timeout=2400)
-    chk.add_tv("TV_FocusTreeTrace", res)
-    _handle(chk, traces, res)
-    kinds = {}
-    nontriv = set()
-    for t in traces:
-        for e in t["ev"]:
-            kinds[e["t"]] = kinds.get(e["t"], 0) + 1
-            if e.get("soft"):
-                chk.divergence(f"{e['t']}_raised_{e['soft']}", {"seed": t["seed"], "tree": [(n["kind"], n["nch"]) for n in e["pre"]]})
-            if e["expect"]:
-                kinds["invalid_focus_assignment"] = kinds.get("invalid_focus_assignment", 0) + 1
-            for nd in e["post"]:
-                if not nd["leaf"]:
-                    kinds["container." + nd["kind"]] = kinds.get("container." + nd["kind"], 0) + 1
-                    if nd["nch"] == 0:
-                        kinds["empty_container"] = kinds.get("empty_container", 0) + 1
-            if e["t"] == "key" and e["key"] in ARROWS and any(a["focus"] != b["focus"] for a in e["pre"] for b in e["post"] if a["id"] == b["id"]):
-                kinds["arrow_moved_focus"] = kinds.get("arrow_moved_focus", 0) + 1
-                nontriv.add(json.dumps([e["pre"], e["key"]]))
+    refuted = {}
+    for v, invs in WRONG.items():
+        rw = futs[v].result()
+        refuted[v] = rw.violated
+        chk.cov["tlc_runs"].append({"run": "MC_FocusTree_wrong_" + v, "cmd": rw.cmd[-300:], "generated": rw.generated, "distinct": rw.distinct,
+                                    "violated_as_demanded": rw.violated, "wall_s": round(rw.wall_s, 1)})
+        if rw.ok or rw.violated not in invs:
+            chk.reject("C08.model.wrong_design_not_refuted", {"model": "FocusTree", "variant": v}, {"violated": rw.violated})
+    pool.shutdown()
+    chk.cov["wrong_designs_refuted"] = refuted
     chk.cov["clause_counts"] = kinds
     chk.cov["distinct_nontrivial"] = len(nontriv)
-    chk.cov["rule"] = ("seeded random nestings (depth <= 3) of Pile/Columns/GridFlow/Frame/Overlay/ListBox around probe leaves; histories of keys, button-1 "
-                       "presses, valid and invalid focus_position assignments, focus-path round trips and contents edits; non-trivial = distinct "
-                       "(tree, arrow key) pairs where the key moved a focus")
-    for v in ("arrow_moved_focus", "empty_container", "invalid_focus_assignment", "setcontents", "roundtrip", "container.Frame", "container.Overlay",
-              "container.GridFlow", "container.ListBox"):
+    chk.cov["rule"] = ("seeded random nestings (depth <= 3) of Pile/Columns/GridFlow/Frame/Overlay/ListBox around probe leaves; family mix: histories of "
+                       "keys, button-1 presses, valid and invalid focus_position assignments, focus-path round trips and contents edits; family unsel: "
+                       "the focus put on an unselectable child (focus_position, set_focus_path, set_focus by index / widget, walker focus, in-place "
+                       "replacement, deletion of the child before) followed by every key of a 22-key alphabet, with and without a rendering in "
+                       "between; family longlist: ListBoxes of 6..24 items (both simple walkers) under Frame/Pile/Columns/Overlay with far jumps, "
+                       "layouts, keys and far round trips; non-trivial = distinct (tree, key) pairs where an arrow moved a focus or the key met an "
+                       "unselectable focus child of a selectable container")
+    need = ["arrow_moved_focus", "empty_container", "invalid_focus_assignment", "setcontents", "roundtrip", "container.Frame", "container.Overlay",
+            "container.GridFlow", "container.ListBox", "family.unsel", "family.longlist", "key_on_unselectable_focus.Pile",
+            "key_on_unselectable_focus.Columns", "key_on_unselectable_focus.ListBox", "key_on_unselectable_focus.Frame", "key_on_unselectable_focus.GridFlow",
+            "key_on_unselectable_focus_selectable_below", "key_right_after_assignment", "key_with_listbox_focus_change_pending", "far_jump_then_layout",
+            "far_jump_without_layout", "roundtrip_longlist", "walker.SimpleListWalker", "walker.SimpleFocusListWalker", "setpath", "render",
+            "no_layout_after.setfocus", "no_layout_after.key"]
+    need += ["way." + w for w in History.WAYS] + ["unsel_key." + k for k in ALPHABET]
+    for v in need:
         if not kinds.get(v):
             chk.vacuity.append("driver." + v)
-    chk.sample({"seed": traces[0]["seed"], "first_tree": traces[0]["ev"][0]["post"]})
-    chk.cov["trusted_base"] = ["TLC", "World.table(): projection of real containers to the node table (vf/props/c08.py)", "probe Leaf widget"]
-    chk.assumptions += ["the same widget instance is never placed twice in one container", "keys are sent only when the root is selectable (as MainLoop does)"]
+    for sm in samples:
+        chk.sample(sm)
+    chk.cov["trusted_base"] = ["TLC", "World.table(): projection of real containers to the node table (vf/props/c08.py)", "probe Leaf widget",
+                               "History.pending(): reads ListBox.set_focus_pending to tell which ListBoxes have a focus change awaiting layout"]
+    chk.assumptions += ["the same widget instance is never placed twice in one container", "keys are sent only when the root is selectable (as MainLoop does)",
+                        "containers act on keys as documented: Pile up/down, Columns left/right, GridFlow the four arrows, ListBox up/down/page up/page down/home/end "
+                        "(FocusTreeOps!Navigates); every other key is unhandled unless a leaf consumes it",
+                        "a ListBox's very first layout may move its focus to the first visible selectable item; the layout completing a ListBox focus assignment "
+                        "may place the cursor inside the new focus item, moving the focus of containers INSIDE that item onto a selectable child "
+                        "(manual: 'ListBox uses move_cursor_to_coords when changing focus'); the ListBox's own focus must not move"]
 
 
 def replay(chk, path):
     with open(path) as f:
         rp = json.load(f)["replay"]
-    tr = run_history(rp["seed"], 12, depth=2 if rp["seed"] % 3 else 3)
+    tr = run_history(rp["seed"], fam=rp.get("fam", "mix"))
     res = tlc.validate("FocusTreeTrace", [tr])
     chk.add_tv("replay", res)
     _handle(chk, [tr], res)
-    chk.sample({"seed": rp["seed"]})
+    chk.sample({"seed": rp["seed"], "fam": rp.get("fam", "mix")})
     return chk.finish()
